@@ -202,8 +202,10 @@ def gen_leaf(sp, rng, ish, kinds=None, cplx=True):
                 npts = rng.randint(1, 4)
                 coord = np.array([[rng.uniform(-ish[-D + d] / 2 - 1, ish[-D + d] / 2 + 1) for d in range(D)] for _ in range(npts)])
                 if k == "interp":
-                    return lin.Interpolate(ish, coord, kernel=rng.choice(["spline", "kaiser_bessel"]),
-                                           width=rng.choice([1, 2, 3, 2.5]), param=rng.choice([0, 1, 2]) ), k
+                    wch, pch = [1, 2, 3, 2.5], [0, 1, 2]
+                    width = rng.choice(wch) if rng.random() < 0.5 else tuple(rng.choice(wch) for _ in range(D))
+                    param = rng.choice(pch) if rng.random() < 0.5 else tuple(rng.choice(pch) for _ in range(D))
+                    return lin.Interpolate(ish, coord, kernel=rng.choice(["spline", "kaiser_bessel"]), width=width, param=param), k
                 return lin.NUFFT(ish, coord, oversamp=rng.choice([1.25, 1.5, 2]), width=rng.choice([3, 4])), k
             if k in ("gridding", "nufft_adj"):
                 # input = batch + points
@@ -213,8 +215,10 @@ def gen_leaf(sp, rng, ish, kinds=None, cplx=True):
                 coord = np.array([[rng.uniform(-g / 2 - 1, g / 2 + 1) for g in grid] for _ in range(npts)])
                 osh = ish[:-1] + grid
                 if k == "gridding":
-                    return lin.Gridding(osh, coord, kernel=rng.choice(["spline", "kaiser_bessel"]),
-                                        width=rng.choice([1, 2, 3]), param=rng.choice([0, 1, 2])), k
+                    wch, pch = [1, 2, 3, 2.5], [0, 1, 2]
+                    width = rng.choice(wch) if rng.random() < 0.5 else tuple(rng.choice(wch) for _ in range(D))
+                    param = rng.choice(pch) if rng.random() < 0.5 else tuple(rng.choice(pch) for _ in range(D))
+                    return lin.Gridding(osh, coord, kernel=rng.choice(["spline", "kaiser_bessel"]), width=width, param=param), k
                 return lin.NUFFTAdjoint(osh, coord, oversamp=rng.choice([1.25, 2]), width=rng.choice([3, 4])), k
             if k == "wavelet":
                 axes = None if rng.random() < 0.4 else rng.sample(range(nd), rng.randint(1, nd))
